@@ -2,14 +2,36 @@
 //!
 //! Engine: explicit-state exploration (stateright BFS) of the Cayley graph of S_N. A state is
 //! (initial mapping set, permutation applied so far, the mapping set the real code produced); an
-//! action is `reorder(σ)` for σ in a generating set of S_N (adjacent transpositions + one rotation).
+//! action is `reorder(σ)` for σ in a generating set of S_N (quick: adjacent transpositions + one
+//! rotation; thorough: also the transpositions (0 k) and the other rotation, so that every position
+//! is made the first namespace from every state).
 //! Every transition rebuilds a real `quill::tree::mappings::Mappings<N, ()>` from the state's set,
 //! calls the real `Mappings::reorder` and projects the result back. In lock-step a reference
 //! written from the property statement says what the result must be (or that the call must fail).
 //!
 //! Laws checked without an expected value: path independence (every word for the same permutation
 //! gives the same set as one direct reorder), `reorder(σ⁻¹)∘reorder(σ) = id`, identity changes
-//! nothing, the result does not depend on the insertion order of the input.
+//! nothing, the result does not depend on the insertion order of the input (reversed, rotated), and
+//! the chain replayed on the real objects themselves (no rebuilding in between) gives the same set.
+//!
+//! Clause table (statement → where it is decided; over which space)
+//!
+//! | clause | decided in | space |
+//! |---|---|---|
+//! | "yields the same entries" | `judge`: `ref_reorder` vs the real result (`classify`: class/field/method count, parameter.index) | every judged transition and every direct reorder (all N! permutations from every initial set), all universes |
+//! | "every name row permuted accordingly" (header, classes, fields, methods, parameters) | `judge` (`classify`: namespaces, *.names); universes `rows`, `cross` (every subset of names missing), `shared` (namesakes in other classes/methods with other rows), `wide` (12+12 members, 36 parameters), `ns-names` (namespace names that are prefixes / case variants of each other) | N = 2, 3, 4 |
+//! | "keys … re-expressed in the new first namespace" | `judge` + `mapmodel::from_quill` (stored key vs the entry's own first name and descriptor → `reorder:mis-keyed-entry`); universe `overloads` (the new key of an entry is the old key of its sibling / of another class) | N = 2, 3, 4 |
+//! | "descriptors re-expressed in the new first namespace" (mapped, unmapped, array classes) | `judge` with `walk_descriptor`; universes `descriptors`, `cross` (plain, array, parameter, return position; inner, packaged, swapped names), `names-jdk`, `names-unicode`, `names-all` (mapped classes in a `java/` package on the old and the new side, `java/lang/Object`, a class called `L`, non-ASCII names, namesakes in two packages, owners / members / mentioned classes with one name in every namespace), `overloads` | N = 2, 3, 4 (`descriptors`, `rows`, `cross` with N = 4: thorough) |
+//! | "comments … untouched" | `judge` (`classify`: *.comment); universes `comments` (set, class, field, method, parameter; multi-line, empty), `shared`, `wide` (empty comments at every level) | N = 2, 3, 4 |
+//! | "parameter indices untouched" | `judge` (`classify`: parameter.index) + `from_quill` (stored index vs own index); indices 0, 1, 2, 7 and 0, 3, 256; parameters without any name | N = 2, 3, 4 |
+//! | "a permutation and then its inverse returns the original" | `law:inverse` after every successful transition, `law:inverse-of-chain` at every non-initial state | all states |
+//! | "the identity permutation changes nothing" | `law:identity` at every state, and σ = id among the direct reorders | all states |
+//! | "fails instead of dropping or mis-keying" when the new first namespace lacks a name | `judge`: `Expect::Refuse` vs the real outcome (keys `reorder:missing-name:{not-refused,entry-dropped,mis-keyed}`), class / field / method level alone and combined; also two entries with one key (`reorder:collision:*`) | `rows`, `cross`, `collisions`, `wide` (each of 24 members in turn), `ns-names` |
+//! | quantifier "2..4 namespaces × all permutations" | floors: all N! permutations reached per N; every universe contributes judged transitions | |
+//!
+//! Not judged (the statement is silent): the order of the entries inside the result, which error is
+//! returned, targets that are not permutations, sets in which a class without entry shares a name
+//! with an entry or is an inner class of one (`Domain`); these are explored for panics only.
 
 use std::collections::{BTreeMap, BTreeSet, VecDeque};
 use std::sync::{Arc, Mutex};
@@ -42,8 +64,11 @@ fn inverse(s: &[u8]) -> Perm {
 	inv
 }
 
-/// adjacent transpositions (0 1), (1 2), … and the rotation (1 2 … n-1 0)
-fn generators(n: usize) -> Vec<Perm> {
+/// adjacent transpositions (0 1), (1 2), … and the rotation (1 2 … n-1 0): they make position 1 the
+/// first namespace; `extended` adds the opposite rotation and the transpositions (0 k), which make
+/// every other position the first one. The extended list starts with the basic one, so a word
+/// means the same in both.
+fn generators(n: usize, extended: bool) -> Vec<Perm> {
 	let mut out: Vec<Perm> = Vec::new();
 	for i in 0..n - 1 {
 		let mut p = identity(n);
@@ -54,6 +79,20 @@ fn generators(n: usize) -> Vec<Perm> {
 	rot.rotate_left(1);
 	if !out.contains(&rot) {
 		out.push(rot);
+	}
+	if extended {
+		let mut rot = identity(n);
+		rot.rotate_right(1);
+		if !out.contains(&rot) {
+			out.push(rot);
+		}
+		for k in 2..n {
+			let mut p = identity(n);
+			p.swap(0, k);
+			if !out.contains(&p) {
+				out.push(p);
+			}
+		}
 	}
 	out
 }
@@ -131,6 +170,34 @@ fn real(st: &mut Stats, set: &MSet, target: &[String], order: Order) -> Result<R
 		2 => real_n::<2>(set, target, order),
 		3 => real_n::<3>(set, target, order),
 		4 => real_n::<4>(set, target, order),
+		n => vcore::machinery_fail(&format!("unsupported namespace count {n}")),
+	})
+}
+
+fn real_chain_n<const N: usize>(set: &MSet, targets: &[Vec<String>]) -> Real {
+	let mut q: Mappings<N, ()> = mapmodel::to_quill_ordered(set, Order::Sorted).unwrap_or_else(|e| vcore::machinery_fail(&format!("cannot build the real object: {e:#}")));
+	for target in targets {
+		let t: Vec<&str> = target.iter().map(|s| s.as_str()).collect();
+		let t: [&str; N] = t.try_into().unwrap_or_else(|_| vcore::machinery_fail("target namespace count"));
+		q = match q.reorder::<()>(t) {
+			Ok(r) => r,
+			Err(e) => return Real::Refused(format!("{e:#}")),
+		};
+	}
+	match mapmodel::from_quill(&q) {
+		Ok(m) => Real::Ok(m),
+		Err(k) => Real::MisKeyed(k.0),
+	}
+}
+
+/// The real `Mappings::reorder` called on its own result, once per target, without rebuilding the
+/// object in between (one counted execution per target).
+fn real_chain(st: &mut Stats, set: &MSet, targets: &[Vec<String>]) -> Result<Real, vcore::Panic> {
+	st.evaluations += targets.len() as u64;
+	vcore::guard(|| match set.n() {
+		2 => real_chain_n::<2>(set, targets),
+		3 => real_chain_n::<3>(set, targets),
+		4 => real_chain_n::<4>(set, targets),
 		n => vcore::machinery_fail(&format!("unsupported namespace count {n}")),
 	})
 }
@@ -324,6 +391,114 @@ fn all_descriptors(s: &MSet) -> Vec<&str> {
 	v
 }
 
+/// Which of the mechanisms the universes aim at does a reorder of `s` by `sigma` exercise? Measured on
+/// the input with the reference's own translation; used for the vacuity floors only, never for a verdict.
+fn features(s: &MSet, sigma: &[u8]) -> BTreeSet<&'static str> {
+	let mut out = BTreeSet::new();
+	let first = sigma[0] as usize;
+	if first == 0 {
+		return out;
+	}
+	let class_names: BTreeMap<&str, &str> = s.classes.iter().filter_map(|(k, c)| c.names[first].as_deref().map(|n| (k.as_str(), n))).collect();
+	let translate = |desc: &str| walk_descriptor(desc, &mut |n| class_names.get(n).copied().unwrap_or(n).to_owned());
+	let mut key_rows: BTreeMap<(&str, &str, &str), BTreeSet<&Row>> = BTreeMap::new();
+	for (k, c) in &s.classes {
+		let owner_unchanged = c.names[first].as_deref() == Some(k.as_str());
+		if let Some(nk) = c.names[first].as_deref() {
+			if nk != k && s.classes.contains_key(nk) {
+				out.insert("rekey:class-takes-the-old-key-of-another-class");
+			}
+		}
+		if c.fields.len() >= WIDE && c.methods.len() >= WIDE {
+			out.insert("wide-class");
+		}
+		let members = c.fields.iter().map(|(key, f)| ("field", key, &f.names)).chain(c.methods.iter().map(|(key, m)| ("method", key, &m.names)));
+		for (kind, (name, desc), names) in members {
+			key_rows.entry((kind, name.as_str(), desc.as_str())).or_default().insert(names);
+			let translated = translate(desc);
+			let changed = &translated != desc;
+			if changed && owner_unchanged {
+				out.insert("descriptor-changes:owner-keeps-its-name");
+			}
+			if changed && names[first].as_deref() == Some(name.as_str()) {
+				out.insert("descriptor-changes:member-keeps-its-name");
+			}
+			if let Some(new_name) = names[first].as_deref() {
+				let new_key = (new_name.to_owned(), translated);
+				let taken = if kind == "field" { c.fields.contains_key(&new_key) } else { c.methods.contains_key(&new_key) };
+				if (&new_key.0, &new_key.1) != (name, desc) && taken {
+					out.insert("rekey:member-takes-the-old-key-of-a-sibling");
+				}
+			}
+			let mentioned = mentioned_classes(desc);
+			let mut simple: BTreeMap<&str, &str> = BTreeMap::new();
+			for (at, u) in mentioned.iter().enumerate() {
+				let Some(new) = class_names.get(u.as_str()).copied() else {
+					if u.starts_with("java/") {
+						out.insert("unmapped-mention:java-package");
+					}
+					continue;
+				};
+				if new == u {
+					out.insert("mapped-mention:one-name-in-both-namespaces");
+					continue;
+				}
+				if u.starts_with("java/") {
+					out.insert("mapped-mention:java-package");
+				}
+				if u == "java/lang/Object" {
+					out.insert("mapped-mention:java-lang-object");
+				}
+				if new.starts_with("java/") {
+					out.insert("mapped-mention:new-name-in-java-package");
+				}
+				if u.len() == 1 && "BCDFIJSZVL".contains(u.as_str()) {
+					out.insert("mapped-mention:named-like-a-descriptor-letter");
+				}
+				if !u.is_ascii() && at + 1 < mentioned.len() {
+					out.insert("mapped-mention:non-ascii-before-another-class");
+				}
+				let simple_name = u.rsplit('/').next().unwrap_or(u);
+				if simple.insert(simple_name, u.as_str()).is_some_and(|other| other != u.as_str()) {
+					out.insert("mapped-mention:one-simple-name-in-two-packages");
+				}
+			}
+		}
+		let mut index_rows: BTreeMap<usize, BTreeSet<&Row>> = BTreeMap::new();
+		for m in c.methods.values() {
+			for (i, p) in &m.params {
+				index_rows.entry(*i).or_default().insert(&p.names);
+			}
+		}
+		if index_rows.values().any(|rows| rows.len() > 1) {
+			out.insert("shared:parameter-index-in-two-methods");
+		}
+	}
+	if key_rows.values().any(|rows| rows.len() > 1) {
+		out.insert("shared:member-key-in-two-classes");
+	}
+	out
+}
+
+/// every feature `features` can report; each must be seen on a judged, successful reorder
+const FEATURES: [&str; 15] = [
+	"descriptor-changes:member-keeps-its-name",
+	"descriptor-changes:owner-keeps-its-name",
+	"mapped-mention:java-lang-object",
+	"mapped-mention:java-package",
+	"mapped-mention:named-like-a-descriptor-letter",
+	"mapped-mention:new-name-in-java-package",
+	"mapped-mention:non-ascii-before-another-class",
+	"mapped-mention:one-name-in-both-namespaces",
+	"mapped-mention:one-simple-name-in-two-packages",
+	"rekey:class-takes-the-old-key-of-another-class",
+	"rekey:member-takes-the-old-key-of-a-sibling",
+	"shared:member-key-in-two-classes",
+	"shared:parameter-index-in-two-methods",
+	"unmapped-mention:java-package",
+	"wide-class",
+];
+
 /// names the first place where the real result differs from the expected one
 fn classify(e: &MSet, a: &MSet) -> (String, String) {
 	if e.ns != a.ns {
@@ -408,10 +583,23 @@ struct Uni {
 
 impl Uni {
 	fn new(label: &str, n: usize, classes: Vec<ClassU>, top_doc: Option<&str>) -> Uni {
-		let ns: Vec<String> = ["official", "intermediary", "named", "extra"][..n].iter().map(|s| s.to_string()).collect();
-		let gens = generators(n);
+		Uni::with_namespaces(label, &["official", "intermediary", "named", "extra"][..n], classes, top_doc)
+	}
+	fn with_namespaces(label: &str, ns: &[&str], classes: Vec<ClassU>, top_doc: Option<&str>) -> Uni {
+		let ns: Vec<String> = ns.iter().map(|s| s.to_string()).collect();
+		Uni::with_space(label, Space::new(&gen::Universe { ns, classes }), top_doc)
+	}
+	/// a space whose class variants were listed by hand (`Space`'s fields are public); the
+	/// generating set is the basic one until `extend_generators` is called
+	fn with_space(label: &str, space: Space, top_doc: Option<&str>) -> Uni {
+		let n = space.ns.len();
+		let gens = generators(n, false);
 		let words = shortest_words(n, &gens);
-		Uni { label: format!("{label}/N={n}"), n, space: Space::new(&gen::Universe { ns, classes }), top_doc: top_doc.map(|s| s.to_owned()), gens, words }
+		Uni { label: format!("{label}/N={n}"), n, space, top_doc: top_doc.map(|s| s.to_owned()), gens, words }
+	}
+	fn extend_generators(&mut self) {
+		self.gens = generators(self.n, true);
+		self.words = shortest_words(self.n, &self.gens);
 	}
 	fn len(&self) -> u64 {
 		self.space.len()
@@ -573,17 +761,157 @@ fn universes(n: usize) -> Vec<Uni> {
 			vec![method("m", "([LB;)LA$Q;", tails_all(n, &nm("m")), no_doc(), vec![])]),
 		class("B", true, vec![tail_full(n, &b)], no_doc(), vec![], vec![]),
 	], None));
+
+	// (f) shapes of class names: the set itself maps classes that live in a `java/` package (old-first
+	//     and new-first side), a class called like the descriptor tag `L` whose other names contain
+	//     descriptor letters, a non-ASCII name in front of other classes of the same descriptor, two
+	//     classes with one simple name in different packages, a class with one name in every namespace;
+	//     the owner and the members may have one name in every namespace while the descriptor changes
+	let same = |s: &'static str| move |_: usize| s.to_owned();
+	let l_names = ["L", "LI", "IL", "V/L"];
+	let name_classes = |which: &[&str]| -> Vec<ClassU> {
+		let mut v = vec![
+			class("java/lang/Shim", true, vec![tail_full(n, &nm("x")), with_cell(tail_full(n, &nm("x")), 1, "java/util/Shim")], no_doc(), vec![], vec![]),
+			class("java/lang/Object", true, vec![tail_full(n, &nm("o")), tail_full(n, &same("java/lang/Object"))], no_doc(), vec![], vec![]),
+			class("L", true, vec![tail_full(n, &|j| l_names[j].to_owned())], no_doc(), vec![], vec![]),
+			class("é/Ü", true, vec![tail_full(n, &|j| format!("ü{j}/É"))], no_doc(), vec![], vec![]),
+			class("p/C", true, vec![tail_full(n, &|j| format!("r{j}/D"))], no_doc(), vec![], vec![]),
+			class("q/C", true, vec![tail_full(n, &|j| format!("s{j}/D"))], no_doc(), vec![], vec![]),
+		];
+		v.retain(|c| which.contains(&c.key.as_str()));
+		v
+	};
+	let holder = |field_f: &str, field_g: &str, method_m: &str| -> ClassU {
+		class("H", false, vec![tail_full(n, &nm("h")), tail_full(n, &same("H"))], no_doc(),
+			vec![
+				field("f", field_f, vec![tail_full(n, &nm("f")), tail_full(n, &same("f"))], no_doc()),
+				field("g", field_g, vec![tail_full(n, &nm("g"))], no_doc()),
+			],
+			vec![
+				method("m", method_m, vec![tail_full(n, &nm("m")), tail_full(n, &same("m"))], no_doc(), vec![]),
+				method("z", "()V", vec![tail_full(n, &nm("z"))], no_doc(), vec![]),
+			])
+	};
+	// JDK-like and letter-like names
+	let mut classes = vec![holder("[Ljava/lang/Shim;", "LL;", "(LL;Ljava/lang/String;[Ljava/lang/Object;)Ljava/lang/Shim;")];
+	classes.extend(name_classes(&["java/lang/Shim", "java/lang/Object", "L"]));
+	out.push(Uni::new("names-jdk", n, classes, None));
+	// non-ASCII names and namesakes in two packages
+	let mut classes = vec![holder("[Lq/C;", "Lé/Ü;", "([[Lé/Ü;Lp/C;ILq/C;)Lé/Ü;")];
+	classes.extend(name_classes(&["é/Ü", "p/C", "q/C"]));
+	out.push(Uni::new("names-unicode", n, classes, None));
+	// all of them together
+	let mut classes = vec![holder("[Ljava/lang/Shim;", "LL;", "(LL;[[Lé/Ü;Lp/C;ILq/C;Ljava/lang/String;Ljava/lang/Object;)Ljava/lang/Shim;")];
+	classes.extend(name_classes(&["java/lang/Shim", "java/lang/Object", "L", "é/Ü", "p/C", "q/C"]));
+	out.push(Uni::new("names-all", n, classes, None));
+
+	// (g) members that differ in the descriptor only (overloads), with one name in every namespace,
+	//     while the classes they mention swap names: the new key of one entry is the old key of its
+	//     sibling; the same member key in two classes with different rows
+	out.push(Uni::new("overloads", n, vec![
+		class("A", true, vec![tail_full(n, &a), with_cell(tail_full(n, &a), 1, "B")], no_doc(),
+			vec![field("f", "LA;", vec![tail_full(n, &nm("fa"))], no_doc())], vec![]),
+		class("B", true, vec![tail_full(n, &b), with_cell(tail_full(n, &b), 1, "A")], no_doc(), vec![], vec![]),
+		class("H", false, vec![tail_full(n, &same("H"))], no_doc(),
+			vec![
+				field("f", "LA;", vec![tail_full(n, &same("f")), tail_full(n, &nm("g"))], no_doc()),
+				field("f", "LB;", vec![tail_full(n, &same("f")), tail_full(n, &nm("k"))], no_doc()),
+			],
+			vec![
+				method("m", "(LA;)V", vec![tail_full(n, &same("m")), tail_full(n, &nm("n"))], no_doc(), vec![]),
+				method("m", "(LB;)V", vec![tail_full(n, &same("m")), tail_full(n, &nm("o"))], no_doc(), vec![]),
+			]),
+	], None));
+
+	// (h) the same member keys and parameter indices in two classes and in two methods of one class,
+	//     with different rows and comments (nothing may be taken from the namesake)
+	let shared_class = |key: &'static str, t: &'static str| -> ClassU {
+		let r = move |base: &'static str| move |j: usize| format!("{base}{t}{j}");
+		class(key, true, vec![tail_full(n, &r("c"))], no_doc(),
+			vec![field("f", "I", vec![tail_full(n, &r("f"))], gen::docs(&[Some(t)]))],
+			vec![
+				method("m", "(I)V", vec![tail_full(n, &r("m"))], gen::docs(&[Some(t)]), vec![
+					ParamU { index: 0, rows: vec![(0..n).map(|j| Some(format!("p{t}{j}"))).collect()], docs: gen::docs(&[Some(t)]) },
+				]),
+				method("n", "(I)V", vec![tail_full(n, &r("n"))], no_doc(), vec![
+					ParamU { index: 0, rows: vec![(0..n).map(|j| Some(format!("q{t}{j}"))).collect()], docs: no_doc() },
+				]),
+			])
+	};
+	out.push(Uni::new("shared", n, vec![shared_class("A", "a"), shared_class("B", "b")], None));
+
+	// (i) a class with a dozen fields and methods (three parameters each); one member at a time lacks
+	//     its name in the last namespace, or gets the key of another one there
+	out.push(Uni::with_space("wide", wide_space(n), Some("wide")));
+
+	// (j) namespace names that are prefixes and case variants of each other
+	out.push(Uni::with_namespaces("ns-names", &["ab", "a", "AB", "abc"][..n], vec![
+		class("A", false, tails_all(n, &a), no_doc(),
+			vec![field("f", "[LA;", vec![tail_full(n, &nm("f"))], no_doc())],
+			vec![method("m", "(LA;)LA;", vec![tail_full(n, &nm("m"))], no_doc(), vec![ParamU { index: 2, rows: rows_all(n, &nm("p")), docs: no_doc() }])]),
+	], None));
 	out
 }
 
-/// quick: everything with 2 and 3 namespaces and the small universes with 4; thorough: everything
+const WIDE: usize = 12;
+
+/// the hand-listed space of universe (i)
+fn wide_space(n: usize) -> Space {
+	let ns: Vec<String> = ["official", "intermediary", "named", "extra"][..n].iter().map(|s| s.to_string()).collect();
+	let full = |base: String| -> Row { (0..n).map(|j| Some(if j == 0 { base.clone() } else { format!("{base}_{j}") })).collect() };
+	let field_desc = |i: usize| ["I", "LW;", "[LW;", "Lu/U;"][i % 4].to_owned();
+	let method_desc = |i: usize| ["(IJ)V", "(LW;I)LW;", "([LW;Lu/U;)V", "(Lu/U;D)[Lu/U;"][i % 4].to_owned();
+	let mut base = MClass { names: full("W".to_owned()), doc: Some("wide class".to_owned()), fields: BTreeMap::new(), methods: BTreeMap::new() };
+	for i in 0..WIDE {
+		// comments: none, a text, the empty text; parameter indices 0, 3 and 256
+		let doc = |k: usize, text: String| match k % 3 { 0 => None, 1 => Some(text), _ => Some(String::new()) };
+		base.fields.insert((format!("f{i}"), field_desc(i)), MField { names: full(format!("f{i}")), doc: doc(i + 1, format!("field {i}")) });
+		let params = (0..3).map(|p| ([0, 3, 256][p], MParam { names: full(format!("p{i}x{p}")), doc: doc(p, format!("parameter {p} of {i}")) })).collect();
+		base.methods.insert((format!("m{i}"), method_desc(i)), MMethod { names: full(format!("m{i}")), doc: doc(i, format!("method {i}")), params });
+	}
+	let last = n - 1;
+	let mut w: Vec<Option<MClass>> = vec![Some(base.clone())];
+	for i in 0..WIDE {
+		let mut c = base.clone();
+		c.fields.get_mut(&(format!("f{i}"), field_desc(i))).unwrap().names[last] = None;
+		w.push(Some(c));
+		let mut c = base.clone();
+		c.methods.get_mut(&(format!("m{i}"), method_desc(i))).unwrap().names[last] = None;
+		w.push(Some(c));
+	}
+	// members 3, 7 and 11 have one descriptor: 11 gets the name of 3 (a collision), 10 the name of 3 (none: other descriptor)
+	for (i, other) in [(11, 3), (10, 3)] {
+		let mut c = base.clone();
+		c.fields.get_mut(&(format!("f{i}"), field_desc(i))).unwrap().names[last] = base.fields[&(format!("f{other}"), field_desc(other))].names[last].clone();
+		w.push(Some(c));
+		let mut c = base.clone();
+		c.methods.get_mut(&(format!("m{i}"), method_desc(i))).unwrap().names[last] = base.methods[&(format!("m{other}"), method_desc(other))].names[last].clone();
+		w.push(Some(c));
+	}
+	let u = MClass { names: full("u/U".to_owned()), doc: None, fields: BTreeMap::new(), methods: BTreeMap::new() };
+	Space { ns, keys: vec!["W".to_owned(), "u/U".to_owned()], variants: vec![w, vec![None, Some(u)]] }
+}
+
+/// thorough: everything; quick: without the three largest universes with 4 namespaces
 fn all_universes(tier: vcore::Tier) -> Vec<Uni> {
 	let mut out: Vec<Uni> = [2, 3, 4].iter().flat_map(|&n| universes(n)).collect();
 	if tier == vcore::Tier::Quick {
-		out.retain(|u| u.n < 4 || ["collisions", "comments", "edge"].iter().any(|l| u.label.starts_with(l)));
+		out.retain(|u| quick_namespace_counts(u.label.split('/').next().unwrap_or("")).contains(&u.n));
+	} else {
+		out.iter_mut().for_each(|u| u.extend_generators());
 	}
 	out
 }
+
+fn quick_namespace_counts(label: &str) -> &'static [usize] {
+	match label {
+		"rows" | "cross" | "names-all" => &[2, 3],
+		_ => &[2, 3, 4],
+	}
+}
+
+/// labels of the universes, in the order of `universes`
+const UNIVERSE_LABELS: [&str; 13] = ["rows", "descriptors", "cross", "collisions", "comments", "edge", "names-jdk", "names-unicode", "names-all", "overloads", "shared", "wide", "ns-names"];
 
 // ---------------------------------------------------------------------------------------------
 // judging
@@ -611,6 +939,8 @@ fn replay_text(uni: &Uni, init: u64, word: &[u8], direct: Option<&[u8]>, extra: 
 struct Env<'a> {
 	uni: &'a Uni,
 	ctx: &'a Ctx,
+	/// thorough: every permutation is judged from every state, not only from the initial sets
+	deep: bool,
 }
 
 /// Lock-step comparison of one real `reorder` with the reference. Returns the result if it is the
@@ -718,7 +1048,11 @@ fn step(env: &Env, st: &mut Stats, last: &St, g: usize) -> Option<St> {
 		return None;
 	}
 	st.outcome("step:judged");
+	st.outcome(&format!("judged-transitions:{}", uni.label));
 	let r = judge(env, st, "step", &last.set, sigma, &replay)?;
+	for f in features(&last.set, sigma) {
+		st.outcome(&format!("feature:{f}"));
+	}
 	let perm = compose(&last.perm, sigma);
 	// cross-check of the oracle itself: the reference is compositional
 	match ref_reorder(&initial, &perm) {
@@ -767,6 +1101,39 @@ fn check_state(env: &Env, st: &mut Stats, s: &St) {
 		let target = permuted(&initial.ns, &s.perm);
 		law(env, st, "law:path-independence", "a chain of reorders and one direct reorder to the same order give different sets", &initial, &target, Order::Sorted, &s.set, &replay);
 		law(env, st, "law:insertion-order", "the result depends on the insertion order of the input's entries", &initial, &target, Order::Reversed, &s.set, &replay);
+		law(env, st, "law:insertion-order", "the result depends on the insertion order of the input's entries", &initial, &target, Order::Rotated(1), &s.set, &replay);
+		// the same chain on the real objects themselves: every reorder is called on the object the
+		// previous one returned (the state graph rebuilds the object from its projection at every step)
+		let mut p = identity(uni.n);
+		let targets: Vec<Vec<String>> = word.iter().map(|&g| {
+			p = compose(&p, &uni.gens[g as usize]);
+			permuted(&initial.ns, &p)
+		}).collect();
+		if env.deep {
+			// every permutation directly from this state, each against the reference
+			for p in vcore::enumerate::permutations(uni.n) {
+				let p: Perm = p.into_iter().map(|x| x as u8).collect();
+				let replay = |extra: &str| replay_text(uni, s.init, &word, Some(&p), extra);
+				st.outcome("direct-from-state:judged");
+				if judge(env, st, "direct-from-state", &s.set, &p, &replay).is_some() {
+					st.outcome("direct-from-state:ok");
+				}
+			}
+		}
+		let what = "reorder called on its own results gives another set than the chain through rebuilt objects";
+		match real_chain(st, &initial, &targets) {
+			Err(p) => env.ctx.diff(&format!("panic@{}", p.file()), &format!("reorder panicked at {}: {}", p.site, p.msg), || replay("law: live chain\n")),
+			Ok(Real::Ok(r)) if r == s.set => st.outcome("law:live-chain:holds"),
+			// the state was reached along another word: this one passes through an order that must be refused
+			Ok(Real::Refused(_)) if targets.iter().any(|t| {
+				let sigma: Perm = t.iter().map(|x| initial.ns.iter().position(|y| y == x).unwrap() as u8).collect();
+				matches!(ref_reorder(&initial, &sigma), Expect::Refuse(_))
+			}) => st.outcome("law:live-chain:word-passes-through-a-refused-order"),
+			Ok(other) => {
+				st.outcome("law:live-chain:violation");
+				env.ctx.diff("law:live-chain", what, || replay(&format!("law: {what}\nexpected Ok:\n{}actual {}\n", tiny::print(&s.set), other.render())));
+			},
+		}
 		// and the inverse of the whole chain returns the initial set
 		law(env, st, "law:inverse-of-chain", "reorder by the inverse of the composed permutation does not return the initial set", &s.set, &permuted(&s.set.ns, &inverse(&s.perm)), Order::Sorted, &initial, &replay);
 	}
@@ -782,7 +1149,7 @@ struct CayleyModel {
 
 impl CayleyModel {
 	fn env(&self) -> Env<'_> {
-		Env { uni: &self.uni, ctx: self.ctx }
+		Env { uni: &self.uni, ctx: self.ctx, deep: self.ctx.tier == vcore::Tier::Thorough }
 	}
 }
 
@@ -918,8 +1285,26 @@ fn main() {
 	ctx.floor("inverse law evaluated on every successful transition", sum(&|k| k.starts_with("step:ok:")), sum(&|k| k.starts_with("law:inverse:")));
 	ctx.floor("sets outside the statement's domain explored for panics", 1, sum(&|k| k.starts_with("outside-domain:")));
 	ctx.floor("non-permutation targets explored for panics", 1, sweep.evaluations);
+	// every universe of the tier contributed transitions that were compared with the reference
+	for u in unis.iter() {
+		ctx.floor(&format!("judged transitions in universe {}", u.label), 1, stats.get(&format!("judged-transitions:{}", u.label)));
+	}
+	for label in UNIVERSE_LABELS {
+		ctx.floor(&format!("namespace counts explored with universe {label}"), ctx.tier.pick(quick_namespace_counts(label).len() as u64, 3), unis.iter().filter(|u| u.label.starts_with(&format!("{label}/"))).count() as u64);
+	}
+	// the mechanisms the universes (f)-(j) aim at were met by successful, judged reorders that change the first namespace
+	for f in FEATURES {
+		ctx.floor(&format!("successful judged transitions with feature {f}"), 1, stats.get(&format!("feature:{f}")));
+	}
+	ctx.floor("chains replayed on the real objects without rebuilding them", 1, stats.get("law:live-chain:holds"));
+	if ctx.tier == vcore::Tier::Thorough {
+		ctx.floor("every permutation judged from every non-initial state", sum(&|k| k.starts_with("law:path-independence:")) * 2, stats.get("direct-from-state:judged"));
+	}
+	ctx.floor("every non-initial state was put to the live chain", sum(&|k| k.starts_with("law:path-independence:")), sum(&|k| k.starts_with("law:live-chain:")));
 
-	let outcomes: BTreeMap<&String, &u64> = stats.outcomes.iter().filter(|(k, _)| !k.starts_with("reached:")).collect();
+	let outcomes: BTreeMap<&String, &u64> = stats.outcomes.iter().filter(|(k, _)| !k.starts_with("reached:") && !k.starts_with("feature:") && !k.starts_with("judged-transitions:")).collect();
+	let features_seen: BTreeMap<&str, u64> = FEATURES.iter().map(|f| (*f, stats.get(&format!("feature:{f}")))).collect();
+	let judged_per_universe: BTreeMap<&str, u64> = unis.iter().map(|u| (u.label.as_str(), stats.get(&format!("judged-transitions:{}", u.label)))).collect();
 	let universes_json: Vec<Value> = unis.iter().map(|u| json!({"label": u.label, "initial_sets": u.len(), "class_variants": u.space.dims(), "generators": u.gens})).collect();
 	let coverage = json!({
 		"states": states,
@@ -934,16 +1319,23 @@ fn main() {
 		"bounds": {
 			"namespace_counts": ns,
 			"universes": universes_json,
-			"generating_set": "adjacent transpositions and one rotation",
-			"insertion_orders": ["sorted", "reversed"],
+			"generating_set": ctx.tier.pick("adjacent transpositions and one rotation", "adjacent transpositions, the transpositions (0 k) and both rotations"),
+			"insertion_orders": ["sorted", "reversed", "rotated by one"],
+			"permutations_judged_directly": ctx.tier.pick("all N! from every initial set", "all N! from every state"),
+			"live_chain": "for every non-initial state the shortest word is replayed on the real objects themselves (each reorder on the result of the previous one)",
+			"class_name_shapes": ["one letter", "inner (A$B)", "packaged", "java/ package (old and new first namespace)", "java/lang/Object", "named L / containing descriptor letters", "non-ASCII", "one simple name in two packages", "one name in every namespace"],
+			"wide_class": {"fields": WIDE, "methods": WIDE, "parameters_per_method": 3},
 		},
 		"outcomes": outcomes,
 		"permutations_reached": reached,
+		"features_on_successful_judged_transitions": features_seen,
+		"judged_transitions_per_universe": judged_per_universe,
 		"non_permutation_sweep": {"evaluations": sweep.evaluations, "outcomes": sweep.outcomes},
 	});
 	ctx.finish(coverage, &[
 		"a class that a descriptor mentions without being an entry keeps its name in every namespace; sets where such a name equals a name of an entry (two classes with one name), or is an inner class of one, are outside the statement and explored for panics only",
 		"two entries that get the same key cannot both be kept, so Ok is not accepted there; which error is returned is not judged",
+		"the order of the entries inside the result is not judged (the statement does not mention it); the result must not depend on the insertion order of the input",
 		"parameters are keyed by index: a parameter without a name in the new first namespace is not a reason to fail",
 		"stateright's BFS visits every reachable state (its exhaustiveness is trusted)",
 	]);
@@ -959,7 +1351,7 @@ fn replay(ctx: &'static Ctx, path: &std::path::Path) -> ! {
 	if init >= uni.len() {
 		vcore::machinery_fail("init out of range");
 	}
-	let env = Env { uni: &uni, ctx };
+	let env = Env { uni: &uni, ctx, deep: true };
 	let mut observations = Vec::new();
 	for _ in 0..2 {
 		let mut st = Stats::new();
